@@ -35,7 +35,7 @@ META = {
         "semantics (method form IS the operator applied to the receiver) and is additionally checked "
         "bounded on ~900 mixed-form queries x 4 data sets.",
         "level_note": "Trusted: NodeTransformer model, visitor induction, z3, own VC generator. "
-        "Method-form operator calls with keyword arguments are outside the stated domain. The "
+        "Keyword arguments of a method-form call are kept (a dropped-keyword defect was repaired, f83bdc5; the earlier domain restriction is gone). The "
         "semantic clause is not a separate mechanised theorem: the reference semantics defines both "
         "forms by the same equation.",
         "technique": "contract-based deductive verification (VCs from real source + lemmas by structural induction, z3); bounded contract check as labelled cross-check",
@@ -46,9 +46,7 @@ META = {
         "visitor induction hypothesis; `contains no remaining method-form operator call` and "
         "idempotence are lemmas over the spec function proved by structural induction (one "
         "obligation per ast node class).",
-        "assumptions": ["method-form operator calls carry no keyword arguments (stated domain "
-                        "restriction opcall_kwfree; the code drops them)",
-                        "sem(seq.Op(args)) == sem(Op(seq, args)) by definition of the reference semantics"],
+        "assumptions": ["sem(seq.Op(args)) == sem(Op(seq, args)) by definition of the reference semantics"],
     },
 }
 
@@ -129,8 +127,11 @@ META["C18"] = {
     "combination, 5 s per input as the bounded termination observation.",
     "level_note": "NOT proved: termination (non-structural recursion; partial correctness only). "
     "ASSUMED, listed in the evidence: visit_Lambda (in-place renaming through aliased lists — "
-    "outside the term view), make_args_unique, arg_name, argument_stack.lookup_name/define_name "
-    "(call_stack.py), and that generic_visit of a node of query shape keeps the shape. The NodeTransformer "
+    "outside the term view), make_args_unique, arg_name, that self.visit leaves the argument stack "
+    "as it found it, and that generic_visit of a node of query shape keeps the shape. "
+    "argument_stack (call_stack.py: __init__, push/pop, define_name, lookup_name; list of "
+    "dictionaries in term view, class invariant, ten list lemmas) and stack_frame (the real "
+    "__enter__/__exit__ run at every `with`) are now PROVED, no longer assumed. The NodeTransformer "
     "dispatch model, z3 and the VC generator are trusted.",
     "technique": "contract-based deductive verification by visitor induction: sidecar contracts on 30 functions of function_simplifier.py, safety obligation for every partial operation, discharged with z3; totality incl. termination observed by a bounded contract check",
     "p_keys": True,
@@ -167,18 +168,25 @@ META["C11"] = {
     "level_text": "Mixed. Deductively proved frame obligations (modifies nothing that existed before "
     "the call; every store goes to an object allocated in the call) for clone_with_new_ast, MetaData, "
     "AsPandasDF/AsAwkwardArray/AsROOTTTree/AsParquetFiles, _get_executor, value_async and "
-    "remove_empty_metadata (cleaner) — from 'every operation writes only fresh objects' the history "
-    "quantifier follows for these functions. NOT under engine P: Select/Where/SelectMany (they go "
-    "through source recovery and the type follower) and QMetaData; the history contract (dump and "
-    "item_type of every live stream unchanged after every step) is checked bounded on ~200 seeded "
-    "and directed histories incl. shared ast.Lambda arguments.",
+    "remove_empty_metadata (cleaner), and now also for Select / SelectMany / Where (exact shape of "
+    "the new query over the ASSUMED contracts of parse_as_ast and remap_from_lambda, `self` not "
+    "written), QMetaData (the store of `_q_metadata` goes to the fresh copy: identity clauses on "
+    "clone_with_new_ast carry the freshness), ObjectStream.__init__ and EventDataset.__init__ (the "
+    "root node is new down to its argument list; mutable defaults are never fresh) — from 'every "
+    "operation writes only fresh objects' the history quantifier follows for these functions. What "
+    "the two assumed neighbours do to shared objects (the recorded finding: a Lambda object given "
+    "twice) and the history contract as a whole (dump and item_type of every live stream unchanged "
+    "after every step) are checked bounded on ~200 seeded and directed histories incl. shared "
+    "ast.Lambda arguments, datasets that write into their root node and wrapped executors.",
     "level_note": "One recorded known finding (shared ast.Lambda object across a typed and an untyped "
     "stream). Trusted: copy.copy / NodeTransformer models, freshness analysis of the engine.",
     "technique": "contract-based deductive verification of frame (modifies) obligations from the real source; bounded history contract check as labelled stand-in for the operators outside the engine",
     "p_keys": True,
-    "explanation": "Frame obligations proved for the builders and executors listed; operators that "
-    "parse lambdas are bounded only.",
-    "assumptions": ["histories bounded: <= 14 steps, <= 2 data sets"],
+    "explanation": "Frame obligations proved for the builders, the three operators, QMetaData, the "
+    "constructors and the executors; source recovery and the type follower are assumed contracts "
+    "(bounded under C03-C10).",
+    "assumptions": ["histories bounded: <= 14 steps, <= 2 data sets",
+                    "parse_as_ast / remap_from_lambda: assumed contracts (result shape, write to no stream)"],
 }
 META["C12"] = {
     "level": "other",
@@ -186,8 +194,12 @@ META["C12"] = {
     "override if given, else the executor of the first node on the args[0] chain (loop invariant of "
     "_get_executor) — with drop_empty_metadata(query) and the title, returns its result, writes "
     "nothing; clone_with_new_ast / MetaData / As* make no opaque call at all (ghost call log empty). "
-    "Bounded: the same facts for Select/Where/SelectMany/QMetaData, find_EventDataset, make_sync, and "
-    "all completion orders of 3 concurrently awaited value_async calls.",
+    "Select / SelectMany / Where keep the query they are called on on the args[0] chain of the new "
+    "query (under the MetaData wrappers callbacks attach: spec md_over, assumed of the type "
+    "follower), EventDataset.__init__ builds the root node. Bounded: no executor call while "
+    "building for the operators and QMetaData (the assumed neighbours are opaque here), make_sync, "
+    "executors that are plain wrappers of coroutine functions, and all completion orders of 3 "
+    "concurrently awaited value_async calls.",
     "level_note": "Trusted: `await f(x)` runs f once; make_sync; asyncio cooperative scheduling. "
     "OS-thread schedules are outside the technique (stated in DESIGN §5).",
     "technique": "contract-based deductive verification with a ghost call log (z3) for value_async/_get_executor and the literal builders; bounded history contract check for the rest",
@@ -218,9 +230,12 @@ META["C16"] = {
     "lookup_query_metadata / _finder.generic_visit return last(qmd_hits(query, key)) — the value at "
     "the defining node met last by a search that does not look below a node defining the key, None "
     "if there is none (visitor with state `_found`; `_q_metadata` is a ghost attribute of the node: "
-    "not a field, hence invisible to ast.dump and to the hash by the node model). The store side "
-    "(QMetaData: shallow copy of the top node, merge with the dictionary already there) depends on "
-    "node identity under copy.copy, which the term view cannot express: it is checked bounded — on "
+    "not a field, hence invisible to ast.dump and to the hash by the node model). QMetaData is under "
+    "contract for what the term view can say: the query of the result is structurally the query it "
+    "was called on (so dump, hash and what executors get are unchanged), item type kept, the store "
+    "goes to a fresh copy of the top node, the original stream is not written. WHICH dictionary is "
+    "stored (merge with the one already there) depends on node identity under copy.copy, which the "
+    "term view cannot express: it is checked bounded — on "
     "~200 (quick) / ~2000 (thorough) seeded and directed histories of QMetaData / operator / branch "
     "steps (3 keys, repeated and consecutive calls, dataset roots and derived streams, two roots) "
     "lookup of every key on every live stream equals the abstract view 'most recent value on the "
@@ -231,7 +246,7 @@ META["C16"] = {
     "qmd_ok, established by QMetaData being the only writer).",
     "technique": "sidecar contract on lookup_query_metadata and its visitor (ghost attribute, state effect, z3); bounded history contract check for QMetaData (labelled stand-in: node identity under copy.copy is outside the term view)",
     "p_keys": True,
-    "explanation": "finder proved; store side bounded",
+    "explanation": "finder proved; QMetaData proved to keep the query structurally, to write only the fresh copy and to leave the stream it is called on alone; contents of the stored dictionary bounded",
     "assumptions": ["`_q_metadata` attributes hold None or a dict (qmd_ok)",
                     "histories of the bounded part: <= 14 steps"],
 }
